@@ -124,7 +124,7 @@ Lemma gstep_cnt : forall R c g a g' o,
   inbox_like R = true -> gstep c g a = (g', o) -> cnt R (g_pubs g) = 0%nat -> cnt R (g_pubs g') = 0%nat.
 Proof.
   intros R c g a g' o HI H H0. unfold gstep, g_set_value, g_set_err in H.
-  destruct a as [k|ms|n v|p|n|k v|v|rq].
+  destruct a as [k|ms|n v|p|n|k v|v|rq|tk z po].
   - destruct k; destruct (g_replied g); inversion H; subst; exact H0.
   - inversion H; subst; exact H0.
   - destruct (event_out c n v) as [ms p] eqn:E. inversion H; subst. cbn [g_pubs].
@@ -134,6 +134,7 @@ Proof.
   - inversion H; subst; exact H0.
   - inversion H; subst; exact H0.
   - destruct rq; inversion H; subst; exact H0.
+  - inversion H; subst; exact H0.
 Qed.
 
 Lemma run_gscript_cnt : forall R c sc g g' o,
@@ -168,7 +169,7 @@ Lemma step_inv : forall c s a s' o,
   inbox_like (c_reply c) = true -> step c s a = (s', o) -> Inv (c_reply c) s -> Inv (c_reply c) s'.
 Proof.
   intros c s a s' o HB H HI. unfold step in H.
-  destruct a as [k|ms|n v|p|n|k v|v|rq].
+  destruct a as [k|ms|n v|p|n|k v|v|rq|tk z po].
   - eapply do_replyk_inv; eassumption.
   - destruct (ms <? 0)%Z; inversion H; subst; [exact HI|].
     unfold Inv in *. cbn [publish pubs replied]. rewrite cnt_app, cnt_pre, HI. lia.
@@ -190,6 +191,8 @@ Proof.
     assert (HS : Inv (c_reply c) (St (replied s) (status s) (rhdr s) (pubs s ++ ms) (log s ++ ls))).
     { unfold Inv in *. cbn [pubs replied]. rewrite cnt_app, HI, E. lia. }
     destruct rq; [destruct e|]; inversion H; subst; exact HS.
+  - destruct (is_nil (if tk then q_token (c_d c) else q_params (c_d c))); [inversion H; subst; exact HI|].
+    destruct po; inversion H; subst; exact HI.
 Qed.
 
 Lemma run_script_inv : forall c sc s s' o,
